@@ -238,7 +238,7 @@ func scenCrash(rep *Report, tier string, seed int64) {
 	}
 	if tier == "thorough" {
 		for i, sp := range spans {
-			addSpan(sp, i%3 == 0)
+			addSpan(sp, i%7 == 0)
 		}
 	} else {
 		for i := 0; i < 5 && len(spans) > 0; i++ {
